@@ -17,6 +17,7 @@ mod report;
 mod rng;
 mod sched;
 mod simfs;
+mod supervise;
 mod watchdog;
 mod world;
 
@@ -53,9 +54,11 @@ fn tune_allocator() {
     const M_TOP_PAD: i32 = -2;
     const M_MMAP_THRESHOLD: i32 = -3;
     unsafe {
+        // bounded retention: at most 256 MiB of free heap top per process (eight C15 children with an
+        // unbounded threshold exhausted the machine in a thorough run)
         mallopt(M_MMAP_THRESHOLD, 32 << 20);
-        mallopt(M_TRIM_THRESHOLD, i32::MAX);
-        mallopt(M_TOP_PAD, 64 << 20);
+        mallopt(M_TRIM_THRESHOLD, 256 << 20);
+        mallopt(M_TOP_PAD, 32 << 20);
     }
 }
 
@@ -90,12 +93,29 @@ fn main() {
                 eprintln!("HARNESS ERROR: no check for property {}", prop);
                 std::process::exit(2);
             };
+            if std::env::var_os("RAINSIM_SUPERVISED").is_none() && std::env::var_os("RAINSIM_NO_SUPERVISOR").is_none() {
+                // run the batch in a child process; if it gets killed, find the run that kills it
+                supervise::supervise_check(prop, tier);
+            }
             watchdog::spawn(watchdog::Mode::Check { prop: prop.clone(), tier: tier.name().to_string() });
             std::process::exit(batch::run_check(&spec, tier));
         }
         Some("replay") => {
             let path = args.get(2).unwrap_or_else(|| usage());
             let rf = report::read_replay(std::path::Path::new(path));
+            if rf.class == supervise::ABORT_CLASS {
+                // the recorded violation is "this run kills its process": execute it in a child
+                println!("replay of {} (property {}, expected signature {})", path, rf.property, rf.signature);
+                let (res, _, _, st) = checks::run_child(&rf.case);
+                if res.is_none() {
+                    println!("  the child process executing the run died: {}", st);
+                    println!("REPRODUCED signature={}", rf.signature);
+                    println!("VIOLATION property={} replay={}", rf.property, path);
+                    std::process::exit(1);
+                }
+                println!("NOT REPRODUCED (the run completed in its child process)");
+                std::process::exit(0);
+            }
             watchdog::spawn(watchdog::Mode::Replay { prop: rf.property.clone(), signature: rf.signature.clone(), path: path.clone() });
             let res = checks::exec_case(&rf.case);
             println!("replay of {} (property {}, expected signature {})", path, rf.property, rf.signature);
